@@ -1877,5 +1877,46 @@ fn find_load_untrusted() {
             Ok(None) => {}
         }
     }
+    // ---- STAM CSV through the same readers the file loaders use: dataset tables and annotation tables derived from a valid one
+    //      by deleting or emptying fields, dropping columns, duplicating rows and breaking numbers - each loads or is refused, no panic
+    {
+        use crate::csv::FromCsv;
+        let valid_set = "Id,Key,Value\n,pos,\nPosNoun,pos,noun\nPosVerb,pos,verb\n";
+        let mut set_docs: Vec<String> = vec![valid_set.to_string(), "".into(), "Id,Key,Value\n".into(), "Id,Key,Value\n,,\n".into(), "Id,Key,Value\n,pos,verb\n".into(),
+            "Id,Key,Value\nPosNoun,,noun\n".into(), "Id,Key,Value\nPosNoun,pos\n".into(), "Id,Key\nPosNoun,pos\n".into(), "Key,Value\npos,noun\n".into(), "Id,Key,Value\nPosNoun,pos,noun\nPosNoun,pos,verb\n".into(),
+            "Id,Key,Value\n!D5,pos,noun\n".into(), "Id,Key,Value\n\"unterminated,pos,noun\n".into(), "Id,Key,Value,Extra\nPosNoun,pos,noun,x\n".into(), "\u{feff}Id,Key,Value\nPosNoun,pos,noun\n".into()];
+        // every single field of the valid table emptied
+        let rows: Vec<Vec<&str>> = valid_set.lines().skip(1).map(|l| l.split(',').collect()).collect();
+        for i in 0..rows.len() { for j in 0..3 { let mut r = rows.clone(); let mut row = r[i].clone(); row[j] = ""; r[i] = row; set_docs.push(format!("Id,Key,Value\n{}\n", r.iter().map(|x| x.join(",")).collect::<Vec<_>>().join("\n"))); } }
+        for doc in &set_docs {
+            let d = doc.clone();
+            let r = std::panic::catch_unwind(move || AnnotationDataSet::from_csv_reader(Box::new(std::io::Cursor::new(d.into_bytes())), None, Config::default()).map(|s| s.data_len()));
+            if r.is_err() { println!("WITNESS {{\"clause\":\"loading untrusted STAM CSV (dataset table)\",\"document\":{:?},\"problem\":\"panic\"}}", doc); return; }
+        }
+        // (the annotation table is reached through a store manifest: four files in a scratch directory, removed afterwards)
+        let dir = std::path::PathBuf::from(std::env::var("VX_SCRATCH").unwrap_or("/var/tmp".to_string())).join(format!("vx_csv_{}", std::process::id()));
+        let _ = std::fs::remove_dir_all(&dir);
+        std::fs::create_dir_all(&dir).unwrap();
+        std::fs::write(dir.join("s.store.stam.csv"), "Type,Id,Filename\nAnnotationStore,s,s.annotations.stam.csv\nAnnotationDataSet,d,d.annotationset.stam.csv\nTextResource,r,r.txt\n").unwrap();
+        std::fs::write(dir.join("d.annotationset.stam.csv"), "Id,Key,Value\n,k,\nD1,k,v\n").unwrap();
+        std::fs::write(dir.join("r.txt"), "Hello world").unwrap();
+        let header = "Id,AnnotationData,AnnotationDataSet,SelectorType,TargetResource,TargetAnnotation,TargetDataSet,BeginOffset,EndOffset,TargetKey,TargetData";
+        let valid_rows = ["A1,D1,d,TextSelector,r,,,0,5,,", "A2,D1,d,AnnotationSelector,,A1,,,,,", "A3,D1,d,AnnotationSelector,,A1,,1,2,,", "A4,D1,d,ResourceSelector,r,,,,,,", "A5,D1,d,DataSetSelector,,,d,,,,",
+            "A6,D1,d,DataKeySelector,,,d,,,k,", "A7,D1,d,AnnotationDataSelector,,,d,,,,D1", "A8,D1,d,MultiSelector;TextSelector;TextSelector,;r;r,;;,;;,;0;6,;5;11,;;,;;"];
+        let mut ann_docs: Vec<String> = vec![format!("{}\n{}\n", header, valid_rows.join("\n"))];
+        for row in valid_rows { let fields: Vec<&str> = row.split(',').collect(); for j in 0..fields.len() {
+            for repl in ["", "nope", "-1", "99999999999999999999", ";", "x;y"] { let mut f = fields.clone(); if f[j] == repl { continue; } f[j] = repl; ann_docs.push(format!("{}\nA1,D1,d,TextSelector,r,,,0,5,,\n{}\n", header, f.join(",")).replacen("A1,D1,d,TextSelector,r,,,0,5,,\nA1,", "A0,D1,d,TextSelector,r,,,0,5,,\nA1,", 1)); }
+        } }
+        for doc in &ann_docs {
+            let d = doc.clone();
+            std::fs::write(dir.join("s.annotations.stam.csv"), d).unwrap();
+            let manifest = dir.join("s.store.stam.csv");
+            let r = std::panic::catch_unwind(std::panic::AssertUnwindSafe(|| AnnotationStore::from_file(manifest.to_str().unwrap(), Config::default()).map(|st| st.annotations_len())));
+            if r.is_err() { println!("WITNESS {{\"clause\":\"loading untrusted STAM CSV (annotation table)\",\"document\":{:?},\"problem\":\"panic\"}}", doc); let _ = std::fs::remove_dir_all(&dir); return; }
+            // (the unchanged table is the sanity check of this harness: it loads, with its eight annotations)
+            if std::ptr::eq(doc, &ann_docs[0]) && !matches!(r, Ok(Ok(8))) { println!("WITNESS {{\"clause\":\"loading STAM CSV (annotation table)\",\"document\":{:?},\"problem\":\"the valid table does not load with its 8 annotations: {:?}\"}}", doc, r.map(|x| x.map_err(|e| e.to_string()))); let _ = std::fs::remove_dir_all(&dir); return; }
+        }
+        let _ = std::fs::remove_dir_all(&dir);
+    }
     println!("NO-WITNESS find_load_untrusted");
 }
